@@ -46,17 +46,28 @@ def budget(tier):
 
 @st.composite
 def _cases(draw, tier):
-    if pct(draw) < 7:
+    if pct(draw) < 9:
         salt = draw(strategies.salts)
+        fault_at = draw(st.sampled_from([None, None, None, 0, 1, 2, 3, 4, 6]))
         inst = draw(strategies.instances(strategies.SIZES['quick'],
                                          min_len=draw(st.sampled_from([1, 2, 3]))))
-        opts = draw(strategies.option_sets(inst, min_crit=1, max_crit=5))
-        return {'kind': 'solved', 'inst': inst, 'opts': opts, 'salt': salt,
-                'fault_at': draw(st.sampled_from([None, 0, 1, 2, 3, 4, 6])),
+        if fault_at is None and draw(st.booleans()):
+            # several criteria that take extra arguments, some with and some without them
+            opts = draw(strategies.option_sets(
+                inst, min_crit=2, max_crit=4,
+                names=['mincost', 'minsqcost', 'mincostlsb', 'maxsize', 'gre', 'gen']))
+        else:
+            opts = draw(strategies.option_sets(inst, min_crit=1, max_crit=5))
+        case = {'kind': 'solved', 'inst': inst, 'opts': opts, 'salt': salt,
+                'fault_at': fault_at,
                 'fault_kind': draw(st.sampled_from(['Infeasible', 'Undefined', 'NotSolved'])),
                 'choices': draw(strategies.choice_lists)}
+        if fault_at is None:
+            _lp.attach_decoy(case, _lp.draw_decoy(draw, inst, 30))
+        return case
     want_valid = draw(st.booleans())
     stab = pct(draw) < 25
+    bf = pct(draw) < 15
     twopl = pct(draw) < (85 if (stab and want_valid) else 50)
     if want_valid and stab:
         twopl = True
@@ -77,7 +88,7 @@ def _cases(draw, tier):
         ['crit%d' % i for i in range(len(crit))]
     order = list(draw(st.permutations(flags)))
     return {'kind': 'parser', 'twopl': twopl, 'stab': stab, 'crit': crit, 'order': order,
-            'na': draw(st.sampled_from([2, 3]))}
+            'na': draw(st.sampled_from([2, 3])), 'bf': bf}
 
 
 def strategy(tier):
@@ -95,7 +106,7 @@ def describe(case):
 def _argv(case, fname):
     opts = {'twopl': case['twopl'], 'stab': case['stab'], 'pc': False, 'crit': case['crit'],
             'order': case['order']}
-    return strategies.build_argv(opts, fname, case['na'])
+    return strategies.build_argv(opts, fname, case['na'], bf=case.get('bf', False))
 
 
 def refusal_reasons(case):
@@ -131,7 +142,7 @@ def run_parser(case):
     except Exception as e:
         raise Violation('unexpected_exception', 'Solver(%r) raised %s: %s'
                         % (argv, type(e).__name__, e), exc=(type(e).__name__, 'Solver'))
-    labels = ['kind=parser', 'ncrit=%d' % len(case['crit'])]
+    labels = ['kind=parser', 'ncrit=%d' % len(case['crit'])] + ['-bf'] * bool(case.get('bf'))
     if reasons:
         labels += ['refuse:' + r for r in reasons]
         if outcome != 'exit:2':
@@ -184,6 +195,24 @@ def solves_of(name, extras, maxrank):
 def run_solved(case):
     inst, opts = case['inst'], case['opts']
     criteria = strategies.ordered_criteria(opts)
+    if case['fault_at'] is None:
+        # no injected failure: besides the order of the lines, every criterion must have been
+        # run with its own extra arguments - observable as the lexicographic optimum
+        try:
+            c = _lp.run_lp(case, want_long=False)
+        except Violation as v:
+            if _lp.owns_exceptions(v):
+                return Result(False, ['kind=solved', 'skipped:exception'])
+            raise
+        from .c03 import check_optimum
+        from .c04 import check_lines
+        check_lines(c, criteria, 'run')
+        try:
+            check_optimum(c, criteria)
+        except Violation as v:
+            raise Violation('extras_not_kept:' + v.facet, v.detail)
+        return Result(len(criteria) >= 2, ['kind=solved', 'ncrit=%d' % len(criteria), 'complete',
+                                           'optimum_checked'])
     plan = []
     if case['fault_at'] is not None:
         plan = [{'at': case['fault_at'], 'kind': case['fault_kind'], 'persistent': True,
